@@ -123,9 +123,10 @@ func (g *gctx) wrap(curT bool, curKeys []int, wantT bool) (w *Wrap, innerIn, inn
 }
 
 type stageOut struct {
-	p      *Prog
-	keys   []int // keys guaranteed in a map-typed output
-	single bool  // exactly one exit node
+	p        *Prog
+	keys     []int // keys guaranteed in a map-typed output
+	single   bool  // exactly one exit node
+	deferred bool  // some exit reaches its successor through a branch (loop exit, empty alternative): the successor must be one node or END
 }
 
 func (g *gctx) genNode(curT bool, curKeys []int, wantT bool) stageOut {
@@ -151,7 +152,7 @@ func (g *gctx) genNode(curT bool, curKeys []int, wantT bool) stageOut {
 			keys = []int{sp.K1}
 		}
 	}
-	return stageOut{&Prog{Op: "node", W: w, N: sp}, keys, true}
+	return stageOut{&Prog{Op: "node", W: w, N: sp}, keys, true, false}
 }
 
 func (g *gctx) genSub(curT bool, curKeys []int, wantT bool, depth int) stageOut {
@@ -187,7 +188,7 @@ func (g *gctx) genSub(curT bool, curKeys []int, wantT bool, depth int) stageOut 
 		keys = inner.keys
 	}
 	dag := !inner.p.balanced() || g.r.Chance(1, 2)
-	return stageOut{&Prog{Op: "sub", W: w, ID: id, Kids: []*Prog{inner.p}, DAG: dag, Front: front}, keys, true}
+	return stageOut{&Prog{Op: "sub", W: w, ID: id, Kids: []*Prog{inner.p}, DAG: dag, Front: front}, keys, true, false}
 }
 
 func (w *Wrap) InOrNil() *int {
@@ -209,17 +210,35 @@ func (g *gctx) genPar(curT bool, curKeys []int, depth int, single bool) stageOut
 			sp := g.nspec(kindOf(curT, false))
 			kids = append(kids, &Prog{Op: "node", W: &Wrap{Out: &kk}, N: sp})
 		}
-		return stageOut{&Prog{Op: "par", Kids: kids}, []int{k}, false}
+		return stageOut{&Prog{Op: "par", Kids: kids}, []int{k}, false, false}
 	}
 	n := g.r.Range(2, 3)
 	var kids []*Prog
 	var keys []int
+	deferred := false
 	for i := 0; i < n; i++ {
 		k := g.genSeq(curT, curKeys, true, depth+1, g.r.Range(1, 2), false, single)
 		kids = append(kids, k.p)
 		keys = append(keys, k.keys...)
+		deferred = deferred || k.deferred
 	}
-	return stageOut{&Prog{Op: "par", Kids: kids}, keys, false}
+	return stageOut{&Prog{Op: "par", Kids: kids}, keys, false, deferred}
+}
+
+// genMulti: a multi-branch; every alternative produces a map with its own keys, the selected
+// ones fan in like the kids of a fan-out.
+func (g *gctx) genMulti(curT bool, curKeys []int, depth int) stageOut {
+	n := g.r.Range(2, 3)
+	c := &CSpec{ID: g.id(), Collect: g.r.Chance(1, 2)}
+	var kids []*Prog
+	deferred := false
+	for i := 0; i < n; i++ {
+		k := g.genSeq(curT, curKeys, true, depth+1, g.r.Range(1, 2), true, true)
+		kids = append(kids, k.p)
+		deferred = deferred || k.deferred
+	}
+	// which alternatives run depends on the input: no key is guaranteed
+	return stageOut{&Prog{Op: "multi", C: c, Kids: kids}, nil, false, deferred}
 }
 
 func (g *gctx) genBranch(curT bool, curKeys []int, wantT bool, depth int) stageOut {
@@ -227,9 +246,21 @@ func (g *gctx) genBranch(curT bool, curKeys []int, wantT bool, depth int) stageO
 	c := &CSpec{ID: g.id(), Collect: g.r.Chance(1, 2)}
 	var kids []*Prog
 	var keys map[int]int
+	deferred := false
+	// one alternative may be empty: the branch then leads straight to the join node / END
+	skip := curT == wantT && g.inject == "" && g.r.Chance(1, 4)
 	for i := 0; i < n; i++ {
+		if skip && i == n-1 {
+			kids = append(kids, &Prog{Op: "skip"})
+			for _, key := range curKeys {
+				keys[key]++
+			}
+			deferred = true
+			continue
+		}
 		k := g.genSeq(curT, curKeys, wantT, depth+1, g.r.Range(1, 2), true, true)
 		kids = append(kids, k.p)
+		deferred = deferred || k.deferred
 		if keys == nil {
 			keys = map[int]int{}
 		}
@@ -244,7 +275,7 @@ func (g *gctx) genBranch(curT bool, curKeys []int, wantT bool, depth int) stageO
 		}
 	}
 	sortInts(common)
-	return stageOut{&Prog{Op: "branch", C: c, Kids: kids}, common, false}
+	return stageOut{&Prog{Op: "branch", C: c, Kids: kids}, common, false, deferred}
 }
 
 func sortInts(a []int) {
@@ -280,18 +311,25 @@ func (g *gctx) genSeq(tin bool, keys []int, tout bool, depth int, nStages int, a
 			wantT = false
 			st = g.genLoop(depth)
 			isLoop = true
+		case roll < 2 && deep && wantT && !(first && altStart) && !afterLoop && single && g.inject == "" && g.r.Chance(1, 3):
+			st = g.genMulti(curT, curKeys, depth)
 		case roll < 2 && deep && wantT && !(first && altStart) && !afterLoop:
 			st = g.genPar(curT, curKeys, depth, single)
 		case roll < 4 && deep && single && !(first && altStart) && !afterLoop:
 			st = g.genBranch(curT, curKeys, wantT, depth)
 		case roll < 5 && deep:
 			st = g.genSub(curT, curKeys, wantT, depth)
+		case roll == 11 && g.r.Chance(1, 2) && single && (!last || curT == tout):
+			// AddPassthroughNode: the value (or stream) goes through untouched
+			g.budget--
+			wantT = curT
+			st = stageOut{&Prog{Op: "pass", ID: g.id(), PassMap: curT}, curKeys, true, false}
 		default:
 			st = g.genNode(curT, curKeys, wantT)
 		}
 		stages = append(stages, st.p)
 		curT, curKeys, single = wantT, st.keys, st.single
-		afterLoop = isLoop
+		afterLoop = isLoop || st.deferred
 		if g.budget <= 0 && !last {
 			// out of budget: close the sequence with a plain node of the right type
 			if curT != tout || true {
@@ -307,11 +345,12 @@ func (g *gctx) genSeq(tin bool, keys []int, tout bool, depth int, nStages int, a
 		st := g.genNode(curT, curKeys, tout)
 		stages = append(stages, st.p)
 		curKeys, single = st.keys, st.single
+		afterLoop = false
 	}
 	if len(stages) == 1 {
-		return stageOut{stages[0], curKeys, single}
+		return stageOut{stages[0], curKeys, single, afterLoop}
 	}
-	return stageOut{&Prog{Op: "seq", Kids: stages}, curKeys, single}
+	return stageOut{&Prog{Op: "seq", Kids: stages}, curKeys, single, afterLoop}
 }
 
 // genLoop: body from a string to a string with one entry node and one exit node, and the
@@ -323,10 +362,10 @@ func (g *gctx) genLoop(depth int) stageOut {
 	g.loops = saved
 	if !body.single {
 		tail := g.genNode(body.p.outMap(), body.keys, false)
-		body = stageOut{&Prog{Op: "seq", Kids: []*Prog{body.p, tail.p}}, nil, true}
+		body = stageOut{&Prog{Op: "seq", Kids: []*Prog{body.p, tail.p}}, nil, true, false}
 	}
 	c := &CSpec{ID: g.id(), Collect: g.r.Chance(1, 2), Bound: g.r.Range(0, 40)}
-	return stageOut{&Prog{Op: "loop", C: c, Kids: []*Prog{body.p}}, nil, true}
+	return stageOut{&Prog{Op: "loop", C: c, Kids: []*Prog{body.p}}, nil, true, true}
 }
 
 // unloop replaces every cycle by one pass through its body (used when the program turns
@@ -407,6 +446,7 @@ func (engine) Generate(r *lib.Rng, tier string, i int) any {
 			c.Inject = g.inject
 		}
 		g.chooseFailure(r, st.p)
+		c.CB = r.Chance(1, 4)
 		return c
 	}
 	if front == "chain" {
@@ -415,6 +455,7 @@ func (engine) Generate(r *lib.Rng, tier string, i int) any {
 		st := g.chainSeq(tin, keys, r.Range(1, 4))
 		c := &Case{Kind: "prog", Front: "chain", Prog: st.p, Chunks: chunks}
 		g.chooseFailure(r, st.p)
+		c.CB = r.Chance(1, 4)
 		return c
 	}
 	switch r.Intn(30) {
@@ -461,7 +502,8 @@ func (engine) Generate(r *lib.Rng, tier string, i int) any {
 		c.DAG = !st.p.balanced() || r.Chance(1, 2)
 	}
 
-	g.chooseFailure(r, st.p)
+	g.chooseFailure(r, c.Prog)
+	c.CB = r.Chance(1, 4)
 	return c
 }
 
@@ -484,6 +526,9 @@ func (g *gctx) chooseFailure(r *lib.Rng, p *Prog) {
 				conds = append(conds, q.C)
 			}
 		})
+		if len(specs)+len(conds) == 0 {
+			return // nothing but passthrough nodes
+		}
 		k := r.Intn(len(specs) + len(conds))
 		if k < len(specs) {
 			specs[k].Fail = r.Range(1, 2)
@@ -571,11 +616,13 @@ func (g *gctx) wfLeaf(curT bool, curKeys []int, nextT *bool, forceTo bool, depth
 	}
 	f, t, keys := g.outMapFor(rawT, st.keys, want, forceTo)
 	st.p.OutMap = f
-	if f != nil && st.p.N != nil {
-		st.p.N.AnyOut = false // field mappings read a statically typed output here
+	if f != nil && st.p.N != nil && (f.Take != nil || f.To[0].From != nil) {
+		// Workflow.Compile rejects a mapping that reads fields of an interface-typed output
+		// ("predecessor output type should be struct or map"); ToField takes the whole any value
+		st.p.N.AnyOut = false
 	}
 	_ = t
-	return stageOut{st.p, keys, true}
+	return stageOut{st.p, keys, true, false}
 }
 
 // wfSeq: nStages stages of a Workflow. endTo: every exit of the sequence must carry a To
@@ -612,7 +659,7 @@ func (g *gctx) wfSeq2(tin bool, keys []int, depth int, nStages int, endTo bool, 
 				kids = append(kids, k.p)
 				ks = append(ks, k.keys...)
 			}
-			st = stageOut{&Prog{Op: "par", Kids: kids}, ks, false}
+			st = stageOut{&Prog{Op: "par", Kids: kids}, ks, false, false}
 			curT, prevMapped = true, true
 		case roll < 4 && deep && single && !prevMapped && !(first && altStart) && !strLast:
 			n := g.r.Range(2, 3)
@@ -622,7 +669,7 @@ func (g *gctx) wfSeq2(tin bool, keys []int, depth int, nStages int, endTo bool, 
 				k, _ := g.wfSeq(curT, curKeys, depth+1, g.r.Range(1, 2), true, true, true, false)
 				kids = append(kids, k.p)
 			}
-			st = stageOut{&Prog{Op: "branch", C: c, Kids: kids}, nil, false}
+			st = stageOut{&Prog{Op: "branch", C: c, Kids: kids}, nil, false, false}
 			curT, prevMapped = true, true
 		default:
 			var next *bool
@@ -653,9 +700,9 @@ func (g *gctx) wfSeq2(tin bool, keys []int, depth int, nStages int, endTo bool, 
 		}
 	}
 	if len(stages) == 1 {
-		return stageOut{stages[0], curKeys, single}, curT
+		return stageOut{stages[0], curKeys, single, false}, curT
 	}
-	return stageOut{&Prog{Op: "seq", Kids: stages}, curKeys, single}, curT
+	return stageOut{&Prog{Op: "seq", Kids: stages}, curKeys, single, false}, curT
 }
 
 // ---------------------------------------------------------------- Chain-shaped programs
@@ -695,7 +742,7 @@ func (g *gctx) chainSeqTo(tin bool, keys []int, nStages int, tout *bool) stageOu
 				ks = append(ks, ok)
 				kids = append(kids, &Prog{Op: "node", W: w, N: g.nspec(kindOf(innerIn, false))})
 			}
-			st = stageOut{&Prog{Op: "par", Kids: kids}, ks, false}
+			st = stageOut{&Prog{Op: "par", Kids: kids}, ks, false, false}
 			wantT = true
 		case roll < 6 && deep && single:
 			n := g.r.Range(2, 3)
@@ -721,7 +768,7 @@ func (g *gctx) chainSeqTo(tin bool, keys []int, nStages int, tout *bool) stageOu
 				}
 			}
 			sortInts(common)
-			st = stageOut{&Prog{Op: "branch", C: c, Kids: kids}, common, false}
+			st = stageOut{&Prog{Op: "branch", C: c, Kids: kids}, common, false, false}
 		case roll < 7 && deep:
 			st = g.genSub(curT, curKeys, wantT, 1)
 		default:
@@ -739,7 +786,7 @@ func (g *gctx) chainSeqTo(tin bool, keys []int, nStages int, tout *bool) stageOu
 		}
 	}
 	if len(stages) == 1 {
-		return stageOut{stages[0], curKeys, single}
+		return stageOut{stages[0], curKeys, single, false}
 	}
-	return stageOut{&Prog{Op: "seq", Kids: stages}, curKeys, single}
+	return stageOut{&Prog{Op: "seq", Kids: stages}, curKeys, single, false}
 }
